@@ -2,18 +2,12 @@
    Props/C07.v is weakened or renamed.  Created by tools/mkpinned.py. *)
 From Coq Require Import Reals QArith String.
 From QV Require Import Rt.Prelude Rt.Amount Macro.Defs Gen.Prefixes Gen.Catalogue Macro.Inst Amount.F64 Amount.Dec
-  Proofs.Instances Proofs.C09 Spec.Units Proofs.C07 Proofs.C07pi.
+  Proofs.Instances Proofs.C09 Spec.Units Proofs.C07.
 From QV Require Import Props.C07.
 Local Close Scope Q_scope.
 Local Close Scope R_scope.
 Check C07_main_crate : forallb (entry_matches_spec true) catalogue_main = true.
 Check C07_astronomical_crate : forallb (entry_matches_spec false) catalogue_astro = true.
-Check C07_parsec_family :
-  within_eps pc_q (648000 / PI)%R /\ within_eps kpc_q (648000 * 1000 / PI)%R /\
-  within_eps mpc_q (648000 * 1000000 / PI)%R /\ within_eps gpc_q (648000 * 1000000000 / PI)%R.
-Check C07_parsec_scales_are_the_generated_ones :
-  pc_q = astro_length_scale_Q (us "Parsec"%string) /\ kpc_q = astro_length_scale_Q (us "Kiloparsec"%string) /\
-  mpc_q = astro_length_scale_Q (us "Megaparsec"%string) /\ gpc_q = astro_length_scale_Q (us "Gigaparsec"%string).
 Check C07_generated_tables_are_declarations : forallb registry_ok all_entries = true.
 Check C07_sizes :
   List.length catalogue_main = 14 /\ List.length catalogue_astro = 4 /\
